@@ -50,6 +50,8 @@ def explain(path):
                 out.append("%2d: del pool[%d]" % (i, op[1]))
             elif k in ("bad_nice", "bad_domain"):
                 out.append("%2d: pool[%d].%s   # rejected call" % (i, op[1], "nice(0)" if k == "bad_nice" else "domain(['x', 1])"))
+            elif k == "foreign":
+                out.append("%2d: <a small %s timeline is constructed and exported: unrelated library activity>" % (i, op[2]))
             elif k == "range_reuse":
                 out.append("%2d: lst[:] = %s; pool[%d].range(lst)   # the list passed earlier, edited in place" % (i, op[2], op[1]))
             else:
